@@ -524,27 +524,20 @@ fn lex_source_into_buffer<'source: 'tokens, 'tokens: 'buffer, 'buffer>(
 					{
 						iter.next();
 						location.end += 1;
-						let mut num_digits = 0;
-						let mut value = 0;
+						let mut contains_digits = false;
+						let mut has_overflowed = false;
+						let mut value: u128 = 0;
 						while let Some(&(_, y)) = iter.peek()
 						{
-							if num_digits > 128
+							if y == b'0' || y == b'1'
 							{
-								break;
-							}
-							else if y == b'0'
-							{
-								num_digits += 1;
+								contains_digits = true;
+								if value.leading_zeros() == 0
+								{
+									has_overflowed = true;
+								}
 								value <<= 1;
-
-								iter.next();
-								location.end += 1
-							}
-							else if y == b'1'
-							{
-								num_digits += 1;
-								value <<= 1;
-								value |= 0b1;
+								value |= u128::from(y - b'0');
 
 								iter.next();
 								location.end += 1;
@@ -559,11 +552,11 @@ fn lex_source_into_buffer<'source: 'tokens, 'tokens: 'buffer, 'buffer>(
 								break;
 							}
 						}
-						if num_digits > 128
+						if has_overflowed
 						{
 							Err(LexingError::InvalidIntegerLength)
 						}
-						else if num_digits > 0
+						else if contains_digits
 						{
 							end_of_literal = location.end;
 							Ok(value)
